@@ -110,6 +110,9 @@ package load
 //@   requires p != nil && p.shedder != nil && p.shedder.rtCounter != p.shedder.passCounter
 //@   ensures [returns-slot] p.shedder.flying == old(p.shedder.flying) - 1
 //@   ensures [records] calls(p.shedder.rtCounter.Add) == 1 && calls(p.shedder.passCounter.Add, 1.0) == 1
+// the recorded response time is the elapsed time in milliseconds rounded UP (a 0.4 ms request counts 1 ms, not 0)
+//@   let elapsed = ret(timex.Now) - p.start
+//@   ensures [latency-in-ms-rounded-up] elapsed >= 0 && elapsed <= 1000000000000000 ==> arg(p.shedder.rtCounter.Add, 1) == ceil(real(elapsed) / 1000000.0)
 //@ func (*promise).Fail
 //@   prop C09
 //@   requires p != nil && p.shedder != nil
